@@ -68,6 +68,7 @@ ADDED = {
  "C15_8": "scenario `c15_cbdrain` (a context's completion callback, or a second task, takes the socket's message between the unlock and the descriptor update)",
  "C18_9": "scenario `c18_preconnect` (messages accepted while no peer is connected, then the peer connects and sending goes on), also under C08",
  "C01_9": "`c18_fifo_seq` (which caught it under C18) added to the C01 plan",
+ "C09_8": "`c18_fifo_conc` (bus path; C18 caught it) added to the C09 plan",
  "C20_8": "`c20_accept2` programs (two connections arrive at a listener together; the allocation failure hits one while the other is negotiating)",
  "C20_9": "`c20_keepalive` programs (requests with bodies on a keep-alive connection, the body the text of another request)",
 }
